@@ -20,7 +20,7 @@ MODULE_DEPS = {
     "dedupe__c08": ["path", "file"],
     "dedupe__c08b": ["path"],
     "path__c06": ["path"],
-    "group": [],
+    "group": ["path"],
     "lock": ["path"],
     "dedupe__c20": ["path"],
     "dedupe__c07": ["dedupe", "path", "file"],
@@ -94,6 +94,8 @@ k("c06_is_prefix_of_compares_components_bounded", "path::Path::is_prefix_of + Pa
   cls="bounded", bound="paths of one and two components with 1-2 byte names (any bytes but NUL and `/`)")
 k("c14_header_totals_bounded", "group::file_count + group::total_size + FileGroup::{file_count, total_size}", module="group", t=600,
   cls="bounded", bound="two groups of 0..3 files, lengths <= 2^40")
+k("c14_sort_by_path_no_roots_bounded", "group::FileGroup::sort_by_path [no --isolate roots] + derived Ord of path::Path", module="group", t=600,
+  cls="bounded", bound="3 files in one directory, one-byte names")
 # ---- semaphore.rs
 k("c19_release", "semaphore::Semaphore::release", module="semaphore", t=300)
 k("c19_guard_roundtrip", "semaphore::Semaphore::access + Drop for SemaphoreGuard", module="semaphore", t=300)
@@ -268,7 +270,7 @@ PROPS = {
         design_ref="DESIGN.md §5 C06",
     ),
     "C14": dict(
-        kani=["c14_header_totals_bounded"],
+        kani=["c14_header_totals_bounded", "c14_sort_by_path_no_roots_bounded"],
         verus=["filegroup_counts", "report_header", "subgroup_grouping"],
         prefixes=["C14.", "C06.group."],
         category="proof",
